@@ -2,6 +2,7 @@ package main
 
 import (
 	"fmt"
+	"strings"
 	"time"
 
 	"github.com/awslabs/operatorpkg/object"
@@ -29,6 +30,8 @@ type lvCase struct {
 	Finalizer  bool   // the claim carries the termination finalizer (a second Delete then succeeds)
 	Present    bool   // the claim exists in the API
 	DelF       string // fault on the first Delete
+	GetF2      string // fault on the second Get NodePool only
+	DelF2      string // fault on the second Delete only
 }
 
 func doLiveness(c *kit.Ctx, x lvCase) {
@@ -42,6 +45,12 @@ func doLiveness(c *kit.Ctx, x lvCase) {
 	}
 	if x.DelF != "" {
 		rules = append(rules, rule{"delete", "NodeClaim", "", 0, x.DelF})
+	}
+	if x.GetF2 != "" {
+		rules = append(rules, rule{"get", "NodePool", "", 1, x.GetF2})
+	}
+	if x.DelF2 != "" {
+		rules = append(rules, rule{"delete", "NodeClaim", "", 1, x.DelF2})
 	}
 	w := newWorld(rules...)
 	state := nodepoolhealth.NewState()
@@ -146,8 +155,13 @@ func doLiveness(c *kit.Ctx, x lvCase) {
 		branch += fmt.Sprintf("waiting(launched=%s,%s-%s)", x.Launched, x.Anchor, deltaName(x.Delta))
 	case len(dels) == 0:
 		branch += "pool-update-" + rc
+	case len(pools) > len(dels):
+		branch += fmt.Sprintf("delete x%d then pool-update-%s", len(dels), rc)
 	default:
 		branch += fmt.Sprintf("delete x%d launched=%v last=%s", len(dels), x.Launched == "True", dels[len(dels)-1])
+		if len(dels) == 1 && x.Launched != "True" && dels[0] == "AOk" {
+			branch += " then " + strings.Fields(strings.Trim(rc, "()"))[0]
+		}
 	}
 	c.Count(branch)
 	for _, p := range pools {
@@ -227,6 +241,25 @@ func runLiveness(c *kit.Ctx) {
 			}
 		}
 	}
+	// faults that hit only the second pool update / the second Delete (both timeouts elapsed)
+	for si, s := range settings {
+		if s.l == "True" || s.anchor != "reg" && s.gap == 0 {
+			continue
+		}
+		if si > 1 && !c.Thorough() {
+			continue
+		}
+		for _, pool := range []string{"missing", "healthy", "willpatch"} {
+			for _, gf := range []string{"", "err", "conflict", "nf"} {
+				for _, df := range []string{"", "err", "nf"} {
+					for _, fin := range []bool{true, false} {
+						doLiveness(c, lvCase{Launched: s.l, Registered: s.r, Gap: s.gap, Anchor: s.anchor, Delta: 0,
+							Pool: pool, GetF2: gf, DelF2: df, Finalizer: fin, Present: true})
+					}
+				}
+			}
+		}
+	}
 	n := 100
 	if c.Thorough() {
 		n = 4000
@@ -254,6 +287,12 @@ func runLiveness(c *kit.Ctx) {
 		}
 		if r.Chance(1, 5) {
 			x.DelF = kit.Pick(r, []string{"err", "nf", "conflict"})
+		}
+		if r.Chance(1, 6) {
+			x.GetF2 = kit.Pick(r, []string{"err", "nf", "conflict"})
+		}
+		if r.Chance(1, 6) {
+			x.DelF2 = kit.Pick(r, []string{"err", "nf", "conflict"})
 		}
 		doLiveness(c, x)
 	}
